@@ -542,6 +542,31 @@ def ct(t):
     return "FConn %s [%s]" % (CONNS[t[1]], "; ".join(ct(c) for c in t[2]))
 
 
+def coq_run_files(named_bodies, timeout=900):
+    """Like common.run_cases_parallel but in a private directory (coq/Cases is shared between
+    concurrently running checks and may be removed by another one).  Returns {name: (ok, out)}."""
+    import concurrent.futures as cfut
+    import shutil
+    d = os.path.join(common.WORK, "c18_cases_%d" % os.getpid())
+    os.makedirs(d, exist_ok=True)
+    for n, b in named_bodies:
+        with open(os.path.join(d, n + ".v"), "w") as fh:
+            fh.write(b)
+
+    def one(n):
+        rc, out = common.sh("ulimit -s unlimited 2>/dev/null; timeout %d coqc -Q %s GV %s.v" % (timeout, common.COQ, n),
+                            cwd=d, timeout=timeout + 30)
+        return n, (rc == 0, out)
+    res = {}
+    try:
+        with cfut.ThreadPoolExecutor(max_workers=common.NCPU) as ex:
+            for n, r in ex.map(one, [n for n, _ in named_bodies]):
+                res[n] = r
+    finally:
+        shutil.rmtree(d, ignore_errors=True)
+    return res
+
+
 TRIPLE = re.compile(r'\("((?:[^"]|"")*)",\s*"((?:[^"]|"")*)",\s*(\d+)\)')
 
 
@@ -563,7 +588,7 @@ def run_model(run, lit, neg, cases, pairs, tag):
             items = ["e (%s) (%s) %s" % (ct(a), ct(b), "true" if x else "false") for a, b, x in ch]
         body = hd + "Eval vm_compute in [\n " + ";\n ".join(items) + "\n]%list.\n"
         bodies.append(("c18_%s_%04d" % (tag, k), body))
-    res = common.run_cases_parallel(bodies, timeout=900)
+    res = coq_run_files(bodies, timeout=900)
     cres, pcodes = [], []
     for (name, _), (kind, ch) in zip(bodies, chunks):
         ok, out = res[name]
@@ -583,23 +608,13 @@ def run_model(run, lit, neg, cases, pairs, tag):
             if len(codes) != len(ch):
                 raise RuntimeError("%s: %d results for %d cases" % (name, len(codes), len(ch)))
             pcodes.extend(codes)
-    for name, _ in bodies:
-        for ext in (".v", ".vo", ".vok", ".vos", ".glob"):
-            try:
-                os.remove(os.path.join(common.COQ, "Cases", name + ext))
-            except OSError:
-                pass
-        try:
-            os.remove(os.path.join(common.COQ, "Cases", "." + name + ".aux"))
-        except OSError:
-            pass
     return cres, pcodes
 
 
 def model_answer(lit, neg, t):
     """what the model computes for one tree (diagnostics for a disagreement)"""
     body = header(lit, neg) + "Eval vm_compute in [o (%s)]%%list.\n" % ct(t)
-    ok, out = common.run_cases("c18_diag", body, timeout=120)
+    ok, out = coq_run_files([("c18_diag", body)], timeout=120)["c18_diag"]
     return out.strip()[-400:]
 
 
@@ -636,14 +651,19 @@ def env_json(env):
     return {k: v for k, v in env.items() if k in ("p", "q", "r", "s", "a", "b", "k")}
 
 
-def report_construct(run, impl, t, w):
-    s, env, exp, got, obj = w
+def construct_key(impl, w):
+    s = w[0]
     cause = "other"
     if s[1] == "=":
         kids = [impl.construct(c) for c in s[2]]
         if len(kids) == 2:
             cause = classify_eq(impl, kids[0], kids[1])
-    key = {"kind": "construct", "entry": s[1], "cause": cause}
+    return {"kind": "construct", "entry": s[1], "cause": cause}
+
+
+def report_construct(run, impl, t, w):
+    s, env, exp, got, obj = w
+    key = construct_key(impl, w)
     what = ("%s = %s but the unsimplified formula evaluates to %r (valuation %s)"
             % (tree_str(s), impl.show(obj), exp, env_json(env)))
     return run.report(key, what, {"kind": "construct", "tree": tree_json(s), "valuation": env_json(env),
@@ -750,9 +770,9 @@ def gen_inputs(run, impl):
     if quick:
         add(rng.sample(ex2, 6000), "exh-d2-sample")
     else:
-        add(ex2, "exh-d2")
+        add(rng.sample(ex2, 120000), "exh-d2-sample")
     # sampled depth 2..4
-    n_samp = 9000 if quick else 200000
+    n_samp = 9000 if quick else 120000
     for i in range(n_samp):
         d = rng.choice([2, 3, 3, 4, 4])
         add([rand_tree(rng, d, rng.choice(["Bool", "Bool", None]))], "rand-d%d" % d)
@@ -803,7 +823,7 @@ def check(run):
     seen = set()
     skipped_wide = 0
     n_eval = 0
-    construct_reported, text_reported = set(), set()
+    construct_best, text_reported = {}, set()
     for t, org in zip(trees, origin):
         kr = repr(t)
         if kr in seen:
@@ -850,22 +870,24 @@ def check(run):
         if bad:
             w = find_construct_witness(impl, vals, t)
             if w is not None:
-                k = repr(w[0])
-                if k not in construct_reported:
-                    construct_reported.add(k)
-                    report_construct(run, impl, t, w)
+                k = construct_key(impl, w)
+                kk = json.dumps(k, sort_keys=True)
+                if kk not in construct_best or size(w[0]) < size(construct_best[kk][1][0]):
+                    construct_best[kk] = (t, w)      # the smallest witness of each class is reported
         # oracle 2: the text reads back (strict SMT-LIB reader)
         cause = check_text(impl, o, txt)
         if cause is not None and cause not in text_reported:
             text_reported.add(cause)
             report_text(run, impl, t, o, txt, cause)
+    for kk in sorted(construct_best):
+        report_construct(run, impl, *construct_best[kk])
     run.log("implementation ran on %d distinct trees, %d valuations each (%.1fs); %d skipped (connector wider than 6)"
             % (len(cases), len(vals), time.time() - t_start, skipped_wide))
 
     # ---- pairs for ==
     okidx = [i for i, o in enumerate(objs) if o is not None]
     pairs = []
-    n_pairs = 4000 if run.tier == "quick" else 40000
+    n_pairs = 4000 if run.tier == "quick" else 30000
     for (t1, t2) in pairs_in:
         pairs.append((t1, t2))
     bykind = {}
@@ -886,7 +908,7 @@ def check(run):
         pairs.append((t1, t2))
     pcases = []
     eqdist = Counter()
-    pair_reported = set()
+    pair_best = {}
     for t1, t2 in pairs:
         r1, r2 = impl.construct_r(t1), impl.construct_r(t2)
         if r1[0] != "ok" or r2[0] != "ok" or impl.width(r1[1]) > 6 or impl.width(r2[1]) > 6:
@@ -897,14 +919,15 @@ def check(run):
         pcases.append((t1, t2, res))
         ident = impl.show(r1[1]) == impl.show(r2[1])
         eqdist["equal-identical" if res and ident else "equal-modulo-permutation/literals" if res else "different"] += 1
-        if res:
+        both_lits = type(r1[1]) in (bool, int) and type(r2[1]) in (bool, int)
+        if res and not both_lits:       # between two bare literals == is Python's builtin, not project code
             w = check_pair_truth(impl, vals, r1[1], r2[1])
             if w is not None:
                 k = classify_eq(impl, r1[1], r2[1])
-                if k not in pair_reported:
-                    pair_reported.add(k)
-                    # smallest witness: prefer small pairs
-                    report_pair(run, impl, t1, t2, r1[1], r2[1], w)
+                if k not in pair_best or size(t1) + size(t2) < size(pair_best[k][0]) + size(pair_best[k][1]):
+                    pair_best[k] = (t1, t2, r1[1], r2[1], w)
+    for k in sorted(pair_best):
+        report_pair(run, impl, *pair_best[k])
     dist["eq_pairs"] = eqdist
 
     # ---- model
@@ -957,7 +980,8 @@ def check(run):
             nontriv.add(exp + "|" + t[1] + "|" + str(len(t[2])))
     run.cov["distinct_nontrivial"] = len(nontriv)
     run.cov["rule"] = ("construction trees: corpus, exhaustive connector-depth 1 over %d leaves with all 8 entry points "
-                       "(arity 1-3 for and/or/distinct), exhaustive depth 2 over 5 leaves (arity<=2; sampled in the quick tier), "
+                       "(arity 1-3 for and/or/distinct; ternary ones sampled in the quick tier), depth 2 over 5 leaves with arity<=2 "
+                       "(280805 trees, 6000 / 120000 of them sampled in the quick / thorough tier), "
                        "random sort-directed trees of depth 2-4 with shared/permuted/literal-swapped subtrees and a malformed "
                        "stream; a case = one distinct tree (model result, rendered text and read-back compared); "
                        "distinct_nontrivial = distinct (constructed result, entry point, arity) classes; "
